@@ -363,6 +363,20 @@ func (fc *FnCtx) load(st *State, a *Addr) Val {
 	if v.K == KAddr && len(fc.eng.structInvs) > 0 && fc.quiet == 0 {
 		fc.assumeStructInv(st, v)
 	}
+	// reading a field of an object that carries a structure invariant over fields
+	// with verified writers: the invariant holds for the heap being read (a callee
+	// may have rewritten those fields since the pointer itself was obtained)
+	if a.Kind == AObj && len(a.Path) > 0 && a.Root != nil && len(fc.eng.structInvs) > 0 && fc.quiet == 0 {
+		for _, si := range fc.eng.structInvs {
+			unstable := false
+			for _, ok := range si.stable {
+				unstable = unstable || !ok
+			}
+			if unstable && types.Identical(a.Root, si.rootType) {
+				fc.assumeStructInv(st, Val{K: KAddr, T: types.NewPointer(si.rootType), A: &Addr{Kind: AObj, Base: a.Base, Root: si.rootType, T: si.rootType}})
+			}
+		}
+	}
 	if a.Kind == AGlobal && len(a.Path) == 0 && v.K == KAddr && v.A.Kind == AObj && fc.eng.initAlloc[a.Global] && !fc.eng.mutableGlobal[a.Global] {
 		fc.assumption("A-INIT: package-level pointers initialised to a composite literal and never reassigned are non-nil")
 		fc.sc.assume(tAnd(tNot(tEq(v.A.Base, "0")), tSel(fc.alloc(st), v.A.Base)))
